@@ -24,7 +24,14 @@ import (
 var c13Scripts = [][]int{{1}, {1, 2}, {1, 1, 2}, {3, 2, 1, 3}, {2}, {3, 3, 3}}
 
 type c13oOp struct {
-	Script int    `json:"script"`
+	// K == "edit": MsgEditDataSource for data source DS by its owner (or, Foreign, by somebody else) that moves the treasury
+	// to account Treas (0..2 = the three genesis treasuries, 3 = a fourth account) and keeps or replaces the fee
+	K       string  `json:"k,omitempty"`
+	DS      int     `json:"ds,omitempty"`
+	Treas   int     `json:"treas,omitempty"`
+	NewFee  []int64 `json:"new_fee,omitempty"` // nil = keep the current fee
+	Foreign bool    `json:"foreign,omitempty"`
+	Script  int     `json:"script"`
 	Ask    int    `json:"ask"`
 	Payer  int    `json:"payer"` // 0 rich, 1 poor
 	Limit  string `json:"limit"` // exact | minus1 | plus1 | zero | big | first-denom-only | drop-denom
@@ -60,6 +67,14 @@ func genC13O(rt *rapid.T) c13oCase {
 	}
 	n := rapid.IntRange(3, 16).Draw(rt, "nops")
 	for i := 0; i < n; i++ {
+		if gen.Chance(rt, "edit", 1, 6) {
+			o := c13oOp{K: "edit", DS: gen.Uniform(rt, "eds", 3), Treas: gen.Uniform(rt, "etreas", 4), Foreign: gen.Chance(rt, "eforeign", 1, 6)}
+			if gen.Chance(rt, "enewfee", 1, 3) {
+				o.NewFee = [][]int64{{0, 0, 0}, {0, 4, 0}, {1, 9, 0}, {2, 5, 3}, {0, 0, 6}}[gen.Uniform(rt, "efee", 5)]
+			}
+			c.Ops = append(c.Ops, o)
+			continue
+		}
 		c.Ops = append(c.Ops, c13oOp{Script: gen.Uniform(rt, "script", len(c13Scripts)), Ask: gen.Range(rt, "ask", 1, 3), Payer: gen.OneOf(rt, "payer", 0, 0, 1),
 			Limit: gen.OneOf(rt, "limit", "exact", "exact", "minus1", "plus1", "zero", "big", "first-denom-only", "drop-denom"), Denom: gen.Uniform(rt, "denom", 3)})
 	}
@@ -95,11 +110,19 @@ func runC13O(c c13oCase) *pbt.Verdict {
 	}
 	defer ch.Close()
 	rich, poor := ch.Users[0], ch.Users[5]
+	// the reference's picture of every data source: fee and treasury as set by genesis and by ACCEPTED edit messages
+	accounts := []*sim.Account{ch.Users[1], ch.Users[2], ch.Users[3], ch.Users[4]}
 	treas := []*sim.Account{ch.Users[1], ch.Users[2], ch.Users[3]}
+	fees := make([][]int64, len(c.Fees))
+	for i, f := range c.Fees {
+		fees[i] = append([]int64{}, f...)
+	}
+	edits, treasuryMoves, paidAfterMove := 0, 0, 0
+	moved := map[int]bool{}
 	cost := func(o c13oOp) (total sdk.Coins, per []sdk.Coins) {
 		total = sdk.NewCoins()
 		for _, ds := range c13Scripts[o.Script] {
-			f := c13Coins(c.Fees[ds-1], int64(o.Ask))
+			f := c13Coins(fees[ds-1], int64(o.Ask))
 			per = append(per, f)
 			total = total.Add(f...)
 		}
@@ -145,13 +168,53 @@ func runC13O(c c13oCase) *pbt.Verdict {
 		return v
 	}
 	expect := map[string]sdk.Coins{}
-	track := append([]*sim.Account{rich, poor}, treas...)
+	track := append([]*sim.Account{rich, poor}, accounts...)
 	for _, a := range track {
 		expect[a.Addr.String()] = ch.App.BankKeeper.GetAllBalances(ch.Ctx(), a.Addr)
 	}
 	var count uint64
 	boundary, midway := false, false
 	for i, o := range c.Ops {
+		if o.K == "edit" {
+			ds := o.DS % len(fees)
+			sender := rich // the genesis owner of every data source
+			if o.Foreign {
+				sender = ch.Users[4]
+			}
+			nf := fees[ds]
+			if o.NewFee != nil && len(o.NewFee) == 3 {
+				nf = o.NewFee
+			}
+			nt := accounts[o.Treas%len(accounts)]
+			msg := oracletypes.NewMsgEditDataSource(oracletypes.DataSourceID(ds+1), oracletypes.DoNotModify, oracletypes.DoNotModify, oracletypes.DoNotModifyBytes,
+				c13Coins(nf, 1), nt.Addr, rich.Addr, sender.Addr)
+			res, err := ch.Block([][]byte{ch.SignTx(sender, msg)}, time.Second)
+			if err != nil {
+				v.Failf("C13/finalize", "block failed: %v", err)
+				return v
+			}
+			if res.Resp.TxResults[0].Code == 0 {
+				if o.Foreign {
+					v.Count("edit_by_non_owner_accepted", 1) // C01's subject; the fee model follows accepted messages
+				}
+				edits++
+				if treas[ds] != nt {
+					treasuryMoves++
+					moved[ds] = true
+				}
+				fees[ds] = append([]int64{}, nf...)
+				treas[ds] = nt
+			} else {
+				v.Count("edit_rejected", 1)
+			}
+			for _, a := range track {
+				if got := ch.App.BankKeeper.GetAllBalances(ch.Ctx(), a.Addr); !got.Equal(expect[a.Addr.String()]) {
+					v.Failf("C13/balance", "op %d (data source edit): %s holds %s, fee model expects %s", i, a.Name, got, expect[a.Addr.String()])
+					return v
+				}
+			}
+			continue
+		}
 		payer := rich
 		if o.Payer == 1 {
 			payer = poor
@@ -228,6 +291,9 @@ func runC13O(c c13oCase) *pbt.Verdict {
 			for k, ds := range c13Scripts[o.Script] {
 				t := treas[ds-1].Addr.String()
 				expect[t] = expect[t].Add(per[k]...)
+				if moved[ds-1] && !per[k].IsZero() {
+					paidAfterMove++
+				}
 			}
 			req, rerr := ch.App.OracleKeeper.GetRequest(ch.Ctx(), oracletypes.RequestID(count))
 			if rerr != nil {
@@ -258,6 +324,12 @@ func runC13O(c c13oCase) *pbt.Verdict {
 		v.Class("balance-runs-out-midway")
 	}
 	v.Count("oracle_requests", int64(count))
+	v.Count("data_source_edits", int64(edits))
+	v.Count("treasury_moves", int64(treasuryMoves))
+	v.Count("fees_paid_after_a_treasury_move", int64(paidAfterMove))
+	if paidAfterMove > 0 {
+		v.Class("fee-paid-after-treasury-moved-by-edit")
+	}
 	v.NonTrivial = boundary || midway
 	return v
 }
